@@ -410,3 +410,172 @@ Proof.
     rewrite (nodup_In_lookup _ _ _ Hnd Hin) in Hety. exact Hety.
   - exists (SExt n). split; [reflexivity|]. intros [[]| | |]; reflexivity.
 Qed.
+
+(* ---------------------------------------------------------------- schema invariants *)
+Lemma find_etype_in_In t l i : find_etype_in t l = Some i -> In (t, i) l.
+Proof.
+  induction l as [|[n j] l IH]; cbn [find_etype_in]; [discriminate|].
+  destruct (name_eqb t n) eqn:E.
+  - intros [= ->]. apply name_eqb_eq in E; subst. left; reflexivity.
+  - intros H; right; auto.
+Qed.
+
+Lemma find_action_in_In u l i : find_action_in u l = Some i -> In (u, i) l.
+Proof.
+  induction l as [|[n j] l IH]; cbn [find_action_in]; [discriminate|].
+  destruct (uid_eqb u n) eqn:E.
+  - intros [= ->]. apply uid_eqb_eq in E; subst. left; reflexivity.
+  - intros H; right; auto.
+Qed.
+
+Lemma wf_find_etype sch t i : schema_wf sch = true -> find_etype sch t = Some i -> etype_info_wf i = true.
+Proof.
+  unfold schema_wf, find_etype. intros H Hf. apply andb_true_iff in H as [H _].
+  rewrite forallb_forall in H. apply (H _ (find_etype_in_In _ _ _ Hf)).
+Qed.
+
+Lemma wf_find_action sch u ai :
+  schema_wf sch = true -> find_action sch u = Some ai ->
+  decl_ty_ok (ai_context ai) = true /\ is_action_type (uty u) = true.
+Proof.
+  unfold schema_wf, find_action. intros H Hf. apply andb_true_iff in H as [_ H].
+  rewrite forallb_forall in H. specialize (H _ (find_action_in_In _ _ _ Hf)). cbn [fst snd] in H.
+  apply andb_true_iff in H. exact H.
+Qed.
+
+Lemma wf_attr_ty i k t r : etype_info_wf i = true -> lookup k (et_attrs i) = Some (t, r) -> decl_ty_ok t = true.
+Proof.
+  unfold etype_info_wf. intros H Hl. apply andb_true_iff in H as [H _].
+  rewrite forallb_forall in H. apply (H _ (lookup_In _ _ _ Hl)).
+Qed.
+
+Lemma wf_tag_ty i t : etype_info_wf i = true -> et_tags i = Some t -> decl_ty_ok t = true.
+Proof. unfold etype_info_wf. intros H Ht. apply andb_true_iff in H as [_ H]. rewrite Ht in H. exact H. Qed.
+
+(* attr_type()/tag_type() + typecheck_value_against_schematype == the declarative typing *)
+Lemma conf_attr_value_iff v t : decl_ty_ok t = true -> (conf_attr_value v t = None <-> TypeConforms v t).
+Proof.
+  intros Hok. destruct (st_agrees t Hok) as [st [Hst Hv]]. unfold conf_attr_value. rewrite Hst, Hv.
+  rewrite <- tc_value_ty_iff. destruct (tc_value_ty v t); split; intros; try discriminate; reflexivity.
+Qed.
+
+Lemma conf_attr_value_not_schematype v t : decl_ty_ok t = true -> conf_attr_value v t <> Some CSchemaType.
+Proof.
+  intros Hok. destruct (st_agrees t Hok) as [st [Hst Hv]]. unfold conf_attr_value. rewrite Hst.
+  destruct (tc_value_st v st); discriminate.
+Qed.
+
+(* ---------------------------------------------------------------- entities *)
+Lemma conf_attrs_iff sch i attrs :
+  etype_info_wf i = true ->
+  (conf_attrs sch i attrs = None <->
+   (forall k, In k (required_attrs i) -> has_key k attrs = true) /\
+   (forall k v, In (k, v) attrs ->
+      match lookup k (et_attrs i) with
+      | Some (t, _) => ValueConforms sch v t
+      | None => et_open i = true /\ UidsValid sch v
+      end)).
+Proof.
+  intros Hwf. unfold conf_attrs. rewrite cthen_none, !first_err_none. apply and_iff2.
+  - split; intros H k Hk; specialize (H k Hk); destruct (has_key k attrs); auto; discriminate.
+  - split.
+    + intros H k v Hin. specialize (H _ Hin). cbn [fst snd] in H. apply cthen_none in H as [H1 H2].
+      apply value_uids_iff in H2.
+      destruct (lookup k (et_attrs i)) as [[t r]|] eqn:Hl.
+      * split; [|exact H2]. apply (conf_attr_value_iff v t (wf_attr_ty _ _ _ _ Hwf Hl)). exact H1.
+      * split; [|exact H2]. destruct (et_open i); [reflexivity | discriminate].
+    + intros H [k v] Hin. specialize (H _ _ Hin). cbn [fst snd]. apply cthen_none.
+      destruct (lookup k (et_attrs i)) as [[t r]|] eqn:Hl.
+      * destruct H as [H1 H2]. split; [|apply value_uids_iff; exact H2].
+        apply (conf_attr_value_iff v t (wf_attr_ty _ _ _ _ Hwf Hl)). exact H1.
+      * destruct H as [H1 H2]. split; [rewrite H1; reflexivity | apply value_uids_iff; exact H2].
+Qed.
+
+Lemma allowed_parent_iff sch t a :
+  existsb (name_eqb a) (allowed_parent_types sch t) = true <-> PermittedAncestorType sch t a.
+Proof.
+  rewrite existsb_name_In. unfold allowed_parent_types, PermittedAncestorType. rewrite in_map_iff. split.
+  - intros [[n i] [Hn Hin]]. cbn [fst] in Hn. subst n. apply filter_In in Hin as [Hin Hex].
+    cbn [snd] in Hex. apply existsb_name_In in Hex. exists i; auto.
+  - intros [i [Hin Hd]]. exists (a, i). split; [reflexivity|]. apply filter_In. split; [exact Hin|].
+    cbn [snd]. apply existsb_name_In. exact Hd.
+Qed.
+
+Lemma conf_ancestors_iff sch t ancs :
+  conf_ancestors sch t ancs = None <->
+  forall a, In a ancs -> UidValid sch a /\ PermittedAncestorType sch t (uty a).
+Proof.
+  unfold conf_ancestors. rewrite first_err_none. split.
+  - intros H a Ha. specialize (H a Ha). apply cthen_none in H as [H1 H2]. split.
+    + apply uid_ok_iff; exact H1.
+    + apply allowed_parent_iff. destruct (existsb (name_eqb (uty a)) (allowed_parent_types sch t)); [reflexivity | discriminate].
+  - intros H a Ha. destruct (H a Ha) as [H1 H2]. apply cthen_none. split.
+    + apply uid_ok_iff; exact H1.
+    + apply allowed_parent_iff in H2. rewrite H2. reflexivity.
+Qed.
+
+Lemma conf_tags_iff sch i tags :
+  etype_info_wf i = true ->
+  (conf_tags sch i tags = None <->
+   forall k v, In (k, v) tags ->
+     match et_tags i with Some t => ValueConforms sch v t | None => False end).
+Proof.
+  intros Hwf. unfold conf_tags. rewrite cthen_none. destruct (et_tags i) as [t|] eqn:Ht.
+  - rewrite !first_err_none. pose proof (wf_tag_ty _ _ Hwf Ht) as Hok. split.
+    + intros [H1 H2] k v Hin. split.
+      * apply (conf_attr_value_iff v t Hok). apply (H1 _ Hin).
+      * apply value_uids_iff. apply (H2 _ Hin).
+    + intros H. split; intros [k v] Hin; destruct (H _ _ Hin) as [H1 H2]; cbn [snd].
+      * apply (conf_attr_value_iff v t Hok). exact H1.
+      * apply value_uids_iff. exact H2.
+  - destruct tags as [|[k v] l].
+    + split; [intros _ k v [] | intros _; split; reflexivity].
+    + split; [intros [Hc _]; discriminate | intros H; destruct (H k v (or_introl eq_refl))].
+Qed.
+
+Lemma rec_eqb_nil xs : rec_eqb xs [] = true <-> xs = [].
+Proof. destruct xs as [|[k v] l]; cbn; split; intros; try discriminate; reflexivity. Qed.
+
+Lemma uids_subset_iff a b : uids_subset a b = true <-> forall x, In x a -> In x b.
+Proof.
+  unfold uids_subset. rewrite forallb_forall. split; intros H x Hx; specialize (H x Hx); apply existsb_uid_In; exact H.
+Qed.
+
+Lemma conf_action_iff sch u d : conf_action sch u d = None <-> ActionConforms sch u d.
+Proof.
+  unfold conf_action, ActionConforms, action_entity.
+  destruct (find_action sch u) as [ai|].
+  - unfold deep_eq. cbn [eattrs etags eancestors]. rewrite uid_eqb_refl, !value_eqb_record. cbn [andb].
+    split.
+    + intros H.
+      destruct (rec_eqb (eattrs d) []) eqn:E1; [|discriminate].
+      destruct (rec_eqb (etags d) []) eqn:E2; [|discriminate].
+      destruct (uids_subset (eancestors d) (action_ancestors sch u)) eqn:E3; [|discriminate].
+      destruct (uids_subset (action_ancestors sch u) (eancestors d)) eqn:E4; [|discriminate].
+      apply rec_eqb_nil in E1. apply rec_eqb_nil in E2.
+      rewrite uids_subset_iff in E3, E4.
+      repeat split; eauto.
+    + intros (_ & E1 & E2 & E3). apply rec_eqb_nil in E1. apply rec_eqb_nil in E2. rewrite E1, E2. cbn [andb].
+      assert (H3 : uids_subset (eancestors d) (action_ancestors sch u) = true)
+        by (apply uids_subset_iff; intros x; apply E3).
+      assert (H4 : uids_subset (action_ancestors sch u) (eancestors d) = true)
+        by (apply uids_subset_iff; intros x; apply E3).
+      rewrite H3, H4. reflexivity.
+  - split; [discriminate | intros [[ai Hc] _]; discriminate].
+Qed.
+
+Theorem conf_entity_iff sch e :
+  schema_wf sch = true -> (conf_entity sch e = None <-> EntityConforms sch e).
+Proof.
+  intros Hwf. destruct e as [u d]. unfold conf_entity, EntityConforms. cbn [fst snd].
+  destruct (is_action_type (uty u)); [apply conf_action_iff|].
+  destruct (find_etype sch (uty u)) as [i|] eqn:Hf.
+  - pose proof (wf_find_etype _ _ _ Hwf Hf) as Hi.
+    rewrite !cthen_none, uid_ok_iff, (conf_attrs_iff sch i _ Hi), conf_ancestors_iff, (conf_tags_iff sch i _ Hi).
+    split.
+    + intros (H1 & (H2 & H3) & H4 & H5). exists i.
+      split; [reflexivity|]. split; [exact H1|]. split; [exact H2|]. split; [exact H3|]. split; [exact H4 | exact H5].
+    + intros [i' (Hi' & H1 & H2 & H3 & H4 & H5)]. inversion Hi'; subst i'.
+      split; [exact H1|]. split; [split; [exact H2 | exact H3]|]. split; [exact H4 | exact H5].
+  - split; [discriminate | intros [i [Hc _]]; discriminate].
+Qed.
